@@ -7,6 +7,8 @@ pub mod c01;
 pub mod c02;
 pub mod c03;
 pub mod c09;
+pub mod c10;
+pub mod c11;
 pub mod c14;
 pub mod c16;
 pub mod c17;
@@ -27,6 +29,8 @@ pub fn meta(prop: &str) -> PropMeta {
         "C07" => advp::META_C07,
         "C08" => advp::META_C08,
         "C09" => c09::META,
+        "C10" => c10::META,
+        "C11" => c11::META,
         "C14" => c14::META,
         "C16" => c16::META,
         "C17" => c17::META,
@@ -36,7 +40,7 @@ pub fn meta(prop: &str) -> PropMeta {
 }
 
 pub fn known(prop: &str) -> bool {
-    matches!(prop, "C01" | "C02" | "C03" | "C06" | "C07" | "C08" | "C09" | "C14" | "C16" | "C17" | "C18")
+    matches!(prop, "C01" | "C02" | "C03" | "C06" | "C07" | "C08" | "C09" | "C10" | "C11" | "C14" | "C16" | "C17" | "C18")
 }
 
 pub fn run(ctx: &mut Ctx) {
@@ -48,6 +52,8 @@ pub fn run(ctx: &mut Ctx) {
         "C07" => advp::run_c07(ctx),
         "C08" => advp::run_c08(ctx),
         "C09" => c09::run(ctx),
+        "C10" => c10::run(ctx),
+        "C11" => c11::run(ctx),
         "C14" => c14::run(ctx),
         "C16" => c16::run(ctx),
         "C17" => c17::run(ctx),
@@ -64,6 +70,8 @@ pub fn replay(ctx: &mut Ctx, stage: &str, case: &Value) -> Check {
         "C03" => c03::replay(ctx, stage, case),
         "C06" | "C07" | "C08" => advp::replay(ctx, stage, case),
         "C09" => c09::replay(ctx, stage, case),
+        "C10" => c10::replay(ctx, stage, case),
+        "C11" => c11::replay(ctx, stage, case),
         "C14" => c14::replay(ctx, stage, case),
         "C16" => c16::replay(ctx, stage, case),
         "C17" => c17::replay(ctx, stage, case),
